@@ -99,8 +99,21 @@ func runWitnesses(id string) []WitnessResult {
 	b, _ := filepath.Glob(filepath.Join(verifDir(), "witness", id, "*.diff"))
 	patches = append(append(patches, a...), b...)
 	sort.Strings(patches)
+	// seeded changes the rule set is known not to decide (documented in DESIGN.md 8.5): reported, not required to fire
+	notCaught := map[string]bool{}
+	if b, err := os.ReadFile(filepath.Join(verifDir(), "seeded", "not_caught.txt")); err == nil {
+		for _, l := range strings.Split(string(b), "\n") {
+			if f := strings.Fields(l); len(f) >= 1 && !strings.HasPrefix(l, "#") {
+				notCaught[f[0]] = true
+			}
+		}
+	}
 	var out []WitnessResult
 	for _, p := range patches {
+		if rel, _ := filepath.Rel(verifDir(), p); notCaught[rel] {
+			out = append(out, WitnessResult{Patch: rel, Result: "known-not-caught", Detail: "listed in seeded/not_caught.txt"})
+			continue
+		}
 		cmd := exec.Command(os.Args[0], id, "quick")
 		cmd.Env = append(os.Environ(), "VERIF_WITNESS_PATCH="+p, "VERIF_NO_EVIDENCE=1")
 		o, err := cmd.CombinedOutput()
